@@ -118,6 +118,7 @@ __CPROVER_ensures(INV(self)) /*@ C01 "producer step keeps the queue invariant (c
 __CPROVER_ensures(RET != NULL ==> (n <= self->_capacity && D(self->_writer_pos + n, self->g_prod_hb) <= self->_capacity && D(self->_writer_pos, self->g_prod_hb) <= self->_capacity - n)) /*@ C01 "a reservation is granted only inside space whose release happens-before the producer, never more than the capacity" */
 __CPROVER_ensures(RET != NULL ==> (RET == self->_storage + (self->_writer_pos & self->_mask) && (self->_writer_pos & self->_mask) + n <= 2 * self->_capacity && (self->_writer_pos & self->_mask) < self->_capacity && __CPROVER_w_ok(RET, n))) /*@ C01 "the granted record is contiguous and inside the buffer, at the address of the writer position" */
 __CPROVER_ensures(self->_writer_pos == OLD(self->_writer_pos) && self->_atomic_writer_pos == OLD(self->_atomic_writer_pos)) /*@ C01 "nothing becomes visible by reserving" */
+__CPROVER_ensures((n <= self->_capacity && self->_writer_pos == OLD(self->_reader_pos_cache)) ==> RET != NULL) /*@ C09 "a queue the producer already knows to be empty grants every reservation up to the capacity (dropping queue: no spurious drop; fresh buffer after growth)" */
 #ifdef QUIESCENT
 __CPROVER_ensures((n <= self->_capacity && OLD(self->_reader_pos) == self->_writer_pos && OLD(self->_atomic_reader_pos) == OLD(self->_reader_pos)) ==> RET != NULL) /*@ C09 "drained queue whose consumer published its position: every reservation up to the capacity succeeds" */
 #endif
@@ -159,6 +160,8 @@ __CPROVER_ensures((RET == NULL) == (self->_writer_pos_cache == self->_reader_pos
 __CPROVER_ensures(RET != NULL ==> (RET == self->_storage + (self->_reader_pos & self->_mask) && D(self->_writer_pos_cache, self->_reader_pos) <= D(self->g_cons_hb, self->_reader_pos) && __CPROVER_r_ok(RET, D(self->_writer_pos_cache, self->_reader_pos)))) /*@ C01 "the bytes handed out start at the reader position, are committed (below the acquire frontier) and readable in one piece" */
 __CPROVER_ensures(self->_reader_pos == OLD(self->_reader_pos) && self->_atomic_reader_pos == OLD(self->_atomic_reader_pos)) /*@ C01 "reading does not release anything" */
 __CPROVER_ensures(RET == NULL ==> self->_reader_pos == OLD(self->g_cons_lb)) /*@ C02 "null is exact with respect to the coherence lower bound" */
+__CPROVER_ensures(D(self->g_cons_lb, self->_reader_pos) >= D(OLD(self->g_cons_lb), self->_reader_pos)) /*@ C02 "the coherence bound only grows (prepare_read)" */
+__CPROVER_ensures(self->g_prod_gone ==> (self->_atomic_writer_pos == OLD(self->_atomic_writer_pos) && self->_writer_pos == OLD(self->_writer_pos))) /*@ C02 "a producer that left does not come back (prepare_read)" */
 ''',
     'finish_read': r'''
 __CPROVER_requires(FRESHQ(self) && INV(self) && n <= D(self->_writer_pos_cache, self->_reader_pos))
